@@ -20,7 +20,7 @@ import subprocess
 import sys
 
 from vf import reflect
-from vf.runner import Check, Result, exc_sig, ROOT
+from vf.runner import Check, Result, exc_sig, ROOT, REPO
 
 CATALOG_SHARED = None
 
@@ -396,7 +396,7 @@ class CHECK(Check):
         for s in seeds:
             env = dict(os.environ)
             env['PYTHONHASHSEED'] = str(s)
-            env['PYTHONPATH'] = '/repo:' + ROOT
+            env['PYTHONPATH'] = REPO + ':' + ROOT
             p = subprocess.run([sys.executable, '-m', 'vf.props.c20', '--dump'], capture_output=True, text=True, env=env, cwd=ROOT, timeout=300)
             if p.returncode != 0:
                 res.violation('seed-run-failed', p.stderr[-500:])
